@@ -131,7 +131,8 @@ theorem skel_Rpc_remove_response : Gen.Skel.Rpc_remove_response =
   ["if", "r:_response", "then", "del:_response[]", "endif"] := by decide
 
 theorem skel_Channel_on_frame : Gen.Skel.Channel_on_frame =
-  ["if", "call:rpc.on_frame", "then", "return", "endif", "if", "then", "r:_inbound",
+  ["if", "then", "if", "call:_skip_returned_content", "then", "return", "endif", "endif", "if",
+    "call:rpc.on_frame", "then", "return", "endif", "if", "then", "r:_inbound",
     "call:_inbound.append", "else", "if", "then", "call:_basic_cancel", "else", "if", "then",
     "call:remove_consumer_tag", "else", "if", "then", "call:add_consumer_tag", "else", "if",
     "then", "call:_basic_return", "else", "if", "then", "call:_close_channel", "else", "if",
